@@ -186,7 +186,9 @@ def run(pid, tier, seed):
         if k == "sut-panic":
             rep.violation({"go_test_output": out[-4000:]}, "code under test panicked:\n" + out[-1500:])
             return rep.finish()
-        raise vlib.Inconclusive("real-socket harness failed:\n" + out[-3000:])
+        if k != "stopped":
+            raise vlib.Inconclusive("real-socket harness failed:\n" + out[-3000:])
+        rep.notes.append("real-socket driver stopped after recording a Close call that does not return")
     real = vlib.read_ndjson(tp2)
     rep.extra["real_socket_histories"] = sum(1 for e in real if e["ev"] == "reset")
     lines += real
